@@ -21,8 +21,8 @@ Proof. intros ->. apply Z_mod_mult. Qed.
 Lemma padding_range md len :
   0 < m_bs md -> 4 <= padding md len <= m_bs md + 3.
 Proof.
-  intros Hbs. unfold_gen.
-  pose proof (Z.mod_pos_bound (len + (if m_etm md || m_aead md then 4 else 8)) (m_bs md) Hbs) as Hr.
+  intros Hbs. unfold padding, c03_padding.
+  pose proof (Z.mod_pos_bound (len + c03_addlen (m_etm md) (m_aead md)) (m_bs md) Hbs) as Hr.
   lia.
 Qed.
 
